@@ -709,7 +709,10 @@ impl Kanata {
     pub fn handle_input_event(&mut self, event: &KeyEvent) -> Result<()> {
         log::debug!("process recv ev {event:?}");
         let evc: u16 = event.code.into();
-        self.ticks_since_idle = 0;
+        if event.value != KeyValue::WakeUp {
+            // A wake-up is not input: it only makes the loop run, e.g. after a TCP client message.
+            self.ticks_since_idle = 0;
+        }
         let kbrn_ev = match event.value {
             KeyValue::Press => {
                 if let Some((macro_id, recorded_macro)) = record_press(
